@@ -190,7 +190,34 @@ static bool sink_failed(const Case &c, ssize_t rc, const ep::ScriptSink &snk, co
     else if (!ep::is_prefix(snk.got, want)) F(c, "sink-error-garbage", "what reached the failing sink is not a prefix of prefix + payload");
     return true;
 }
+// pre_used == 2 with ops 6/7: the buffer that is framed is also the object behind the sink (a ByteBuffer used as a queue: the frame of its
+// first unread octets is appended to its own end through the library's buffer sink). Source and destination ranges never overlap.
+static void op_to_own_sink(const Case &c) {
+    Buf src(c.bsize, c.bused, c.boff);
+    Sink s; sink_to_buffer(&s, &src.b);
+    ByteBuffer before = src.b;
+    Bytes content(src.blk.p, src.blk.p + c.bsize);
+    size_t rest = c.bused - c.boff, room = c.bsize - c.bused;
+    size_t n = c.op == 6 ? rest : (size_t)c.n;
+    ssize_t rc = c.op == 6 ? X_buffer_to_sink(c.k, &s, &src.b) : X_buffer_to_sink_n(c.k, &s, &src.b, n);
+    vp::cls("frame-appended-to-the-framed-buffer-itself");
+    if ((c.op == 7 && n > rest) || n > kmax(c.k)) {
+        if (rc >= 0) F(c, "own-sink:refusable-accepted", vp::fmt("n=%zu rest=%zu rc=%zd", n, rest, rc));
+        else if (src.b.offset != before.offset || src.b.used != before.used || memcmp(src.blk.p, content.data(), c.bsize) != 0) F(c, "own-sink:refused-but-buffer-changed", "buffer changed by a refused call");
+        return;
+    }
+    if (n == 0) { vp::stats().dontcare++; return; }
+    Bytes want = ref_prefix(c.k, n); want.insert(want.end(), content.begin() + (long)c.boff, content.begin() + (long)(c.boff + n));
+    if (memcmp(src.blk.p, content.data(), c.bused) != 0) { F(c, "own-sink:queued-octets-overwritten", "octets in front of the fill mark changed"); return; }
+    if (src.b.used < before.used || src.b.used - before.used > want.size() || memcmp(src.blk.p + before.used, want.data(), src.b.used - before.used) != 0) { F(c, "own-sink:appended-octets", vp::fmt("fill mark moved from %zu to %zu; what was appended is not a prefix of prefix + payload", before.used, src.b.used)); return; }
+    if (want.size() <= room) {
+        if (rc != (ssize_t)want.size()) { F(c, "own-sink:return", vp::fmt("returned %zd, total is %zu (room %zu)", rc, want.size(), room)); return; }
+        if (src.b.used != before.used + want.size()) { F(c, "own-sink:frame-not-in-buffer", vp::fmt("the call reports %zd octets but the fill mark moved from %zu to %zu", rc, before.used, src.b.used)); return; }
+        if (c.op == 7 && src.b.offset != before.offset + n) F(c, "own-sink:advance", vp::fmt("read mark moved by %zu instead of n=%zu", src.b.offset - before.offset, n));
+    } else if (rc >= 0 && (size_t)rc >= want.size()) F(c, "own-sink:no-room-but-success", vp::fmt("frame of %zu octets reported as sent into %zu free octets", want.size(), room));
+}
 static void op_to_sink(const Case &c) {
+    if (c.pre_used == 2 && (c.op == 6 || c.op == 7)) { op_to_own_sink(c); return; }
     ep::ScriptSink snk(!c.octet_src); snk.script.steps = c.frag;
     if (c.capdelta > 0) snk.err_at = c.capdelta - 1;
     if (c.op == 5) {
@@ -337,7 +364,7 @@ static void run() {
     bool T = a.thorough();
     size_t maxbuf = T ? 10 : 7;
     vp::stats().rule = vp::fmt("enum: 6 prefix kinds (+ the lenp_* wrapper entry points for the variable-length kind) x lengths 1..1100 and kind maxima +-1 through memory_encode/memory_to_sink; every buffer state (size<=%zu, offset<=used<=size) x n in 0..rest+1 through "
-                               "buffer_encode(_n)/buffer_to_sink(_n); chunk lists of 1..3 small chunks incl. empty/partly consumed ones, in separate blocks and carved back to back out of one array; huge lengths (2^32-1, 2^32, SSIZE_MAX+-) through prefix objects; "
+                               "buffer_encode(_n)/buffer_to_sink(_n), the latter also with the framed buffer itself behind the sink (frame appended to its own end); chunk lists of 1..3 small chunks incl. empty/partly consumed ones, in separate blocks and carved back to back out of one array; huge lengths (2^32-1, 2^32, SSIZE_MAX+-) through prefix objects; "
                                "decoding of 1..3-frame streams in every fragmentation (stream length <= %d) by chunk and octet sources (and chunk sources lending a scratch buffer) into memory/buffer/buffer-sink destinations of capacity len-1/len/len+1, "
                                "destinations with previous content", maxbuf, T ? 15 : 12);
     vp::stats().exhaustive = true;
@@ -367,6 +394,10 @@ static void run() {
             if (!mine()) continue;
             for (int op : {2, 6}) { Case c = mk(op, k); c.bsize = size; c.bused = used; c.boff = off; if (op == 6) run_sinks(c); else run_case(c); }
             for (size_t n = 0; n <= used - off + 1; n++) for (int op : {3, 7}) { Case c = mk(op, k, n); c.bsize = size; c.bused = used; c.boff = off; if (op == 7) run_sinks(c); else run_case(c); if (vp::want_sample()) vp::sample(ser(c)); }
+            if (used < size) {
+                { Case c = mk(6, k); c.bsize = size; c.bused = used; c.boff = off; c.pre_used = 2; run_case(c); }
+                for (size_t n = 0; n <= used - off + 1; n++) { Case c = mk(7, k, n); c.bsize = size; c.bused = used; c.boff = off; c.pre_used = 2; run_case(c); }
+            }
             if (off > 0 && used < size) { vp::nontrivial(vp::mix(vp::mix(vp::mix(size, used), off), k + 200)); vp::cls("buffer-with-offset-and-free-space"); } else vp::cls("buffer-plain");
         }
     // larger buffers (lengths across the one-octet boundary), sampled states
